@@ -113,9 +113,9 @@ def compile_all(chk, ents):
             objs = e.build()
             cd = cjit.cache_dir("strict")
             if e.kind == "expression":
-                pipeline.jit_expressions(objs, cd, {}, cffi_extra_compile_args=STRICT)
+                pipeline.jit_expressions(objs, cd, dict(e.options), cffi_extra_compile_args=STRICT)
             else:
-                pipeline.jit_forms(objs, cd, {}, cffi_extra_compile_args=STRICT)
+                pipeline.jit_forms(objs, cd, dict(e.options), cffi_extra_compile_args=STRICT)
             return {"name": e.name, "ok": True}
         except BaseException as ex:  # noqa
             msg = str(ex)
